@@ -158,9 +158,16 @@ EvalSeq(es, st, j, acc) ==
            c == Cast("I", r.v)
        IN IF IsErr(c) THEN R(c, r.st) ELSE EvalSeq(es, r.st, j + 1, Append(acc, c.v))
 
-\* an lvalue resolved to a storage place: [key, flat] (flat = 0 for a scalar)
+\* an lvalue resolved to a storage place:
+\*   [key, flat (0 for a scalar), path (record fields), vt (type stored there), fix]
 ResolveLv(lhs, st) ==
-  IF lhs.k = "var" THEN R([t |-> "P", key |-> KeyS(lhs.n, lhs.t), flat |-> 0], st)
+  IF lhs.k = "var" THEN
+    R([t |-> "P", key |-> KeyS(lhs.n, lhs.t), flat |-> 0, path |-> <<>>, vt |-> lhs.t,
+       fix |-> DeclFix(st, KeyS(lhs.n, lhs.t))], st)
+  ELSE IF lhs.k = "fld" THEN
+    LET r == ResolveLv(lhs.base, st) IN
+    IF IsErr(r.v) THEN r
+    ELSE R([r.v EXCEPT !.path = Append(@, lhs.f), !.vt = lhs.t, !.fix = lhs.fix], r.st)
   ELSE \* "idx"
     LET key == KeyA(lhs.n, lhs.t)
         arr == GetKey(st, key)
@@ -168,19 +175,26 @@ ResolveLv(lhs, st) ==
     IN IF arr.t # "A" THEN R(Err(0), st)          \* undeclared array: not modelled
        ELSE IF IsErr(r.v) THEN r
        ELSE LET fi == FlatIndex(arr.dims, r.v.v) IN
-            IF fi = 0 THEN R(Err(9), r.st) ELSE R([t |-> "P", key |-> key, flat |-> fi], r.st)
+            IF fi = 0 THEN R(Err(9), r.st)
+            ELSE R([t |-> "P", key |-> key, flat |-> fi, path |-> <<>>, vt |-> arr.et, fix |-> arr.fix], r.st)
+
+RECURSIVE GetPath(_, _), SetPath(_, _, _)
+GetPath(v, path) == IF path = <<>> THEN v ELSE GetPath(v.f[Head(path)], Tail(path))
+SetPath(v, path, nv) ==
+  IF path = <<>> THEN nv ELSE [v EXCEPT !.f[Head(path)] = SetPath(@, Tail(path), nv)]
 
 ReadPlace(st, p) ==
-  IF p.flat = 0 THEN GetKey(st, p.key) ELSE GetKey(st, p.key).cells[p.flat]
+  LET root == GetKey(st, p.key) IN
+  GetPath(IF p.flat = 0 THEN root ELSE root.cells[p.flat], p.path)
 
-\* store v (already of the right type) into place p
+\* store v (already of the right type) into place p: exactly that place changes
 WritePlace(st, p, v) ==
-  IF p.flat = 0 THEN SetKey(st, p.key, v)
-  ELSE LET arr == GetKey(st, p.key) IN SetKey(st, p.key, [arr EXCEPT !.cells[p.flat] = v])
+  LET root == GetKey(st, p.key) IN
+  IF p.flat = 0 THEN SetKey(st, p.key, SetPath(root, p.path, v))
+  ELSE SetKey(st, p.key, [root EXCEPT !.cells[p.flat] = SetPath(@, p.path, v)])
 
-PlaceType(p) == p.key[2]
-PlaceFix(st, p) ==
-  IF p.flat = 0 THEN DeclFix(st, p.key) ELSE GetKey(st, p.key).fix
+PlaceType(p) == p.vt
+PlaceFix(st, p) == p.fix
 
 \* convert v for storing into place p (type conversion, fixed-length strings)
 ConvFor(st, p, v) ==
@@ -195,6 +209,17 @@ Eval(e, st) ==
     [] e.k = "idx" ->
          LET r == ResolveLv(e, st) IN
          IF IsErr(r.v) THEN r ELSE R(ReadPlace(r.st, r.v), r.st)
+    [] e.k = "fld" ->
+         LET r == ResolveLv(e, st) IN
+         IF IsErr(r.v) THEN r ELSE R(ReadPlace(r.st, r.v), r.st)
+    [] e.k = "bound" ->   \* LBOUND / UBOUND (arr [, dimension])
+         LET arr == GetKey(st, KeyA(e.n, e.t))
+             r == Eval(e.d, st)
+             c == Cast("I", r.v)
+         IN IF arr.t # "A" THEN R(Err(0), st)
+            ELSE IF IsErr(c) THEN R(c, r.st)
+            ELSE IF c.v < 1 \/ c.v > Len(arr.dims) THEN R(Err(9), r.st)
+            ELSE R(Val("I", IF e.which = "l" THEN arr.dims[c.v].lo ELSE arr.dims[c.v].hi), r.st)
     [] e.k = "par" -> Eval(e.e, st)
     [] e.k = "un" ->
          LET r == Eval(e.e, st) IN R(IF e.op = "neg" THEN Neg(r.v) ELSE Not(r.v), r.st)
@@ -212,7 +237,7 @@ Eval(e, st) ==
 (* after return); anything else by value after conversion to the parameter  *)
 (* type.                                                                    *)
 (***************************************************************************)
-IsLvalue(e) == e.k \in {"var", "idx"}
+IsLvalue(e) == e.k \in {"var", "idx", "fld"}
 
 \* result: [v |-> error or "ok", st, vars (callee env), refs]
 BindArgs(params, args, st, j, acc) ==
@@ -481,6 +506,19 @@ ExecCall(st, s) ==
        ELSE IF IsErr(b.v) THEN Fail(b.st, s.id, b.v.c)
        ELSE Enter(pi, b, s.id, Adv(b.st.k))
 
+\* default value of a declared type: numbers 0, strings empty or n blanks, records fieldwise
+RECURSIVE DefaultOf(_, _, _, _)
+TypeIndex(prog, ty) == CHOOSE i \in 1..Len(prog.types) : prog.types[i].n = ty
+DefaultOf(prog, t, ty, fix) ==
+  IF t = "U" THEN
+    LET td == prog.types[TypeIndex(prog, ty)] IN
+    [t |-> "U", ty |-> ty,
+     f |-> [fn \in {td.fields[i].n : i \in 1..Len(td.fields)} |->
+              LET fd == td.fields[CHOOSE i \in 1..Len(td.fields) : td.fields[i].n = fn] IN
+              DefaultOf(prog, fd.t, fd.ty, fd.fix)]]
+  ELSE IF t = "$" /\ fix > 0 THEN Val("$", Blanks(fix))
+  ELSE Default(t)
+
 RECURSIVE EvalDims(_, _, _, _)
 EvalDims(ds, st, j, acc) ==
   IF j > Len(ds) THEN R([t |-> "Q", v |-> acc], st)
@@ -498,14 +536,16 @@ ExecDim(st, s) ==
              THEN [st EXCEPT !.shared = @ \cup {IF s.dims = <<>> THEN KeyS(s.n, s.t) ELSE KeyA(s.n, s.t)}]
              ELSE st
   IN IF s.dims = <<>> THEN
-       (IF s.fix > 0
+       (IF s.t = "U"
+        THEN [SetKey(st0, KeyS(s.n, "U"), DefaultOf(st.prog, "U", s.ty, 0)) EXCEPT !.k = Adv(@)]
+        ELSE IF s.fix > 0
         THEN [st0 EXCEPT !.fix = (KeyS(s.n, s.t) :> s.fix) @@ @, !.k = Adv(@)]
         ELSE [st0 EXCEPT !.k = Adv(@)])
      ELSE
        LET r == EvalDims(s.dims, st0, 1, <<>>) IN
        IF IsErr(r.v) THEN Fail(r.st, s.id, r.v.c)
        ELSE LET n == BoxSize(r.v.v)
-                dv == IF s.t = "$" /\ s.fix > 0 THEN Val("$", Blanks(s.fix)) ELSE Default(s.t)
+                dv == DefaultOf(st.prog, s.t, IF s.t = "U" THEN s.ty ELSE "", s.fix)
                 arr == [t |-> "A", et |-> s.t, dims |-> r.v.v, cells |-> [i \in 1..n |-> dv], fix |-> s.fix]
             IN [SetKey(r.st, KeyA(s.n, s.t), arr) EXCEPT !.k = Adv(@)]
 
@@ -593,11 +633,15 @@ Obs(st) ==
 (***************************************************************************)
 (* Invariants of the reference semantics (checked in every state).          *)
 (***************************************************************************)
+RECURSIVE ScalarOK(_, _)
+ScalarOK(t, v) ==
+  /\ v.t = t
+  /\ (t \in NumTypes => InRange(t, v.v))
+  /\ (t = "U" => \A fn \in DOMAIN v.f : ScalarOK(v.f[fn].t, v.f[fn]))
 ValueOK(key, v) ==
-  IF v.t = "A" THEN \A i \in DOMAIN v.cells : v.cells[i].t = v.et /\
-                      (v.et # "$" => InRange(v.et, v.cells[i].v)) /\
+  IF v.t = "A" THEN \A i \in DOMAIN v.cells : ScalarOK(v.et, v.cells[i]) /\
                       (v.et = "$" /\ v.fix > 0 => Len(v.cells[i].v) = v.fix)
-  ELSE v.t = key[2] /\ (v.t # "$" => InRange(v.t, v.v))
+  ELSE ScalarOK(key[2], v)
 
 \* C06 inside the oracle: a numeric variable only ever holds a value of its type
 TypeOK(st) ==
